@@ -124,6 +124,29 @@ theorem C17_flat_index_guard_witness :
     argIndices [("q", 2), ("r", 2)] ⟨"q", some 3⟩ = some [3] ∧
     argIndices [("q", 2), ("r", 2)] ⟨"r", some 1⟩ = some [3] := by decide
 
+/-- Whatever is accepted, the decoded circuit has at least one qubit and every operation has
+a non-empty location inside it (`get_circuit` / `circuit.extend` reject everything else; this
+is why an index beyond the *whole* circuit is rejected while one beyond its register is not). -/
+theorem C17_decoded_in_range {V : Type} (A : Arith V) (table : List BuiltinDef) (ts : List Tok)
+    (d : Decoded V) (h : decodeToks A table ts = some d) :
+    0 < d.numQubits ∧ ∀ op ∈ d.ops, op.loc ≠ [] ∧ ∀ q ∈ op.loc, q < d.numQubits := by
+  simp only [decodeToks, Option.bind_eq_some_iff] at h
+  obtain ⟨ss, _, st, _, hfin⟩ := h
+  simp only [finish] at hfin
+  split at hfin
+  · simp at hfin
+  · rename_i hn
+    split at hfin
+    · rename_i hall
+      simp only [Option.some.injEq] at hfin
+      subst hfin
+      refine ⟨by simp at hn; exact Nat.pos_of_ne_zero hn, ?_⟩
+      intro op hop
+      simp only [List.all_eq_true, Bool.and_eq_true, Bool.not_eq_true',
+        List.isEmpty_eq_false_iff, decide_eq_true_eq] at hall
+      exact hall op hop
+    · simp at hfin
+
 /-! ## C17_precedence — the expression reader -/
 
 /-- **The Python-level reading is exactly the precedence grammar** `sum > term > factor
